@@ -490,8 +490,12 @@ def splice_closures(body, closures, counts):
         if j >= 0 and (mask[j].isalnum() or mask[j] in ')]_'):
             continue   # binary `|` operator
         heads.append(m)
-    for n, header, spec in sorted(closures, key=lambda c: -c[0]):
+    for clo in sorted(closures, key=lambda c: -c[0]):
+        n, header, spec = clo[0], clo[1], clo[2]
+        optional = len(clo) > 3 and clo[3]
         if n < 1 or n > len(heads):
+            if optional:
+                continue
             raise Lost('closure #%d not found (function has %d closures)' % (n, len(heads)))
         m = heads[n - 1]
         orig_names = [p.split(':')[0].strip() for p in m.group(1).split(',') if p.strip()]
@@ -897,8 +901,10 @@ def assemble(unit_path, repo, vf_dir):
                     continue
                 if st.startswith('%closure'):
                     # %closure <n> <annotated header>   + following indented ensures lines
-                    mm = re.match(r'%closure\s+(\d+)\s+(.*)$', st)
-                    cur_clo = [int(mm.group(1)), mm.group(2).strip(), '']
+                    # `%closure? n ..`: the annotation is dropped when the function has no n-th closure (the closure was
+                    # written away); `%closure n ..` without `?` then loses the extraction
+                    mm = re.match(r'%closure(\?)?\s+(\d+)\s+(.*)$', st)
+                    cur_clo = [int(mm.group(2)), mm.group(3).strip(), '', bool(mm.group(1))]
                     f.closures.append(cur_clo)
                     mode = 'closure'
                     i += 1
